@@ -43,6 +43,20 @@ CHECKS = {
          'SimCF is my reading of the TOC wire protocol; faults on link-control/platform requests (which have no retry) '
          'exclude loss; a thread that is slow by itself for longer than a retry period is not modelled',
          'DESIGN.md §3 C03', 'E3'),
+ 'C02': ('exploration',
+         'stateless deviation-bounded exploration of thread schedules and fault/close times of the real connection code under a controlled scheduler',
+         'The real Crazyflie / SyncCrazyflie objects connect to a simulated device while a controlled scheduler owns every '
+         'thread switch and the clock. Explored exhaustively: every single deviation (quick) among link error from the '
+         'driver thread at any scheduling point, link error raised inside send_packet at any transmission, user close_link '
+         'at any point, any other runnable thread at any synchronisation point - and, in two line-level configurations, '
+         'at every line of 17 functions with unsynchronised check-then-act on shared attributes; thorough adds every pair '
+         'of deviations on two minimal configurations. Each execution is followed by a settle period and a fault-free '
+         'second session on the same object. Oracle: callback grammar and counts of the statement, no deadlock / hang / '
+         'dead thread, DISCONNECTED reached, second session fully connects with the device values.',
+         'SimLink mirrors RadioDriver (error callback from its own thread or inside send_packet, close() clears the '
+         'callback); virtual time makes a running thread infinitely fast relative to timers at other instants; two '
+         'genuine defects of the same root cause are listed in known_findings.json',
+         'DESIGN.md §3 C02', 'E3'),
 }
 
 ALL = ['C%02d' % i for i in range(1, 21)]
